@@ -9,6 +9,9 @@ import random
 
 from . import tlc, c09
 
+MOD = "c09"
+SPEC = "Mapper"
+
 QUIRK_WHAT = {
     "KeyedStores": "aliasing allowed: a store narrower than the value already recorded for the same location is widened "
                    "with the old upper bytes and re-appended (mapper.py:272-274), so old bytes are re-asserted AFTER stores "
@@ -30,14 +33,8 @@ QUIRK_WHAT = {
 
 
 def _replay_chunk(args):
-    path, lo, hi, seed, stride, offset, base = args
-    out = []
-    for idx, beh in enumerate(tlc.iter_spool_range(path, lo, hi)):
-        if stride > 1 and (idx % stride) != offset:
-            continue
-        tid = base + lo * 2 + idx
-        out.append(c09.replay(tid, beh, seed * 1000003 + tid))
-    return out
+    behs, seed, base = args
+    return [c09.replay(base + i, beh, seed * 1000003 + base + i) for i, beh in enumerate(behs)]
 
 
 def _random_chunk(args):
@@ -52,22 +49,38 @@ def _random_chunk(args):
     return out
 
 
-def generate(ctx, cfg, kind, simulate=None, depth=None, stride=1, base=0):
-    wd = tlc.workdir("c09gen_" + kind)
+def generate(ctx, cfg, kind, simulate=None, depth=None, limit=None, base=0):
+    """TLC prints every complete behaviour (in -simulate mode: every successor it generates); `limit` of them are
+    drawn uniformly with the seeded rng (reservoir sampling over the spool) and executed."""
+    wd = tlc.workdir("%sgen_%s" % (MOD, kind))
     spool = os.path.join(wd, "beh.spool")
-    res = tlc.run("Mapper", cfg, simulate=simulate, depth=depth, seed=ctx.seed if simulate else None,
-                  spool=spool, tag="c09" + kind, timeout=3000)
+    res = tlc.run(SPEC, cfg, simulate=simulate, depth=depth, seed=ctx.seed if simulate else None,
+                  spool=spool, tag=MOD + kind, timeout=3000, workers=2)
     ctx.add_tlc(res, "G:" + cfg)
-    chunks = tlc.spool_chunks(spool, 64)
-    offset = ctx.seed % stride if stride > 1 else 0
-    jobs = [(spool, lo, hi, ctx.seed, stride, offset, base) for lo, hi in chunks]
+    rng = random.Random(ctx.seed * 31 + len(kind))
+    picked, total = [], 0
+    with open(spool, "rb") as f:
+        for bl in f:
+            if not bl.startswith(b'"'):
+                continue
+            total += 1
+            if limit is None or len(picked) < limit:
+                picked.append(bl)
+            else:
+                j = rng.randrange(total)
+                if j < limit:
+                    picked[j] = bl
+    tlc.cleanup(wd)
+    behs = [json.loads(json.loads(bl.decode("utf-8"))) for bl in picked]
+    if not behs:
+        raise tlc.MachineryError("generator %s produced no behaviour" % cfg)
+    ctx.count("behaviours_generated_" + kind, total)
+    n = max(1, min(tlc.NCPU, len(behs)))
+    jobs = [(behs[i::n], ctx.seed, base + i * 100000) for i in range(n)]
     traces = []
-    with mp.Pool(min(tlc.NCPU, max(1, len(jobs)))) as pool:
+    with mp.Pool(n) as pool:
         for out in pool.imap_unordered(_replay_chunk, jobs):
             traces.extend(out)
-    tlc.cleanup(wd)
-    if not traces:
-        raise tlc.MachineryError("generator %s produced no behaviour" % cfg)
     for t in traces:
         t["src"] = kind
     ctx.count("behaviours_" + kind, len(traces))
